@@ -82,12 +82,34 @@ def grounding_rejects_equal_assignments(ex, rec):
     return False
 
 
+def forall_variable_vanishes(ex, rec):
+    """True when an increase/decrease forall effect of the action loses a quantified variable once the action is
+    grounded and simplified (e.g. `forall v if (v == v) then r += 1`): Effect.__init__ drops forall variables that are
+    not free in the effect, so the grounded effect is applied once instead of once per object."""
+    a, args = rec["action"], rec["args"]
+    subs = dict(zip(a.parameters, args))
+    fvo = a.environment.free_vars_oracle
+    for e in a.effects:
+        if not e.is_forall() or e.is_assignment():
+            continue
+        free = set()
+        for x in (e.fluent, e.value, e.condition):
+            y = (x.substitute(subs) if subs else x).simplify()
+            free |= set(fvo.get_free_variables(y))
+        if any(v not in free for v in e.forall):
+            return True
+    return False
+
+
 def classify(ex, rec, code):
     """tags for a failing pair (narrow: call site + shape)"""
     tags = ["c01"]
     if rec["apply"] is not None and code & 1 and code & 2 and dropped_undefined_read(ex, rec):
         tags.append("grounder-simplification-drops-undefined-read")
         tags.append("impl-applicable")
+    if code & 1 and code & 2 and not rec["raised"] and forall_variable_vanishes(ex, rec):
+        tags.append("forall-variable-vanishes-after-grounding")
+        tags.append("increase-or-decrease")
     if rec["apply"] is None and not rec["raised"] and code & 1 and code & 2 and grounding_rejects_equal_assignments(ex, rec):
         tags.append("grounding-rejects-equal-valued-assignments")
         tags.append("impl-inapplicable")
